@@ -155,16 +155,22 @@ theorem core_ioStep (s : St) (id : Nat) (inj : IoRes) (hb : Base s) (hc : Core s
             · rename_i hnone
               exact fresh false 0 _ rfl rfl rfl rfl rfl rfl (fun hh => absurd hh (by decide))
             · rename_i f hsome
+              have hfile : find? s.files j.key = some f := by
+                by_cases hi : inj = .failLate
+                · simp [hi] at hsome
+                · simpa [hi] using hsome
               split
               · rename_i hsz
                 refine fresh true f.data _ rfl rfl rfl rfl rfl rfl ?_
-                intro _ size tok _ hfile
-                have : find? s.files j.key = some f := by
-                  by_cases hi : inj = .failLate
-                  · simp [hi] at hsome
-                  · simpa [hi] using hsome
-                rw [this] at hfile; cases hfile; rfl
-              · exact fresh false 0 _ rfl rfl rfl rfl rfl rfl (fun hh => absurd hh (by decide))
+                intro _ size tok _ hfile'
+                rw [hfile] at hfile'; cases hfile'; rfl
+              · rename_i hsz
+                split
+                · -- a file shorter than the dataset: success, but never the file of a dataset whose bytes are tracked
+                  refine fresh true _ _ rfl rfl rfl rfl rfl rfl ?_
+                  intro _ size tok hs hfile'
+                  rw [hfile] at hfile'; cases hfile'; exact absurd hs hsz
+                · exact fresh false _ _ rfl rfl rfl rfl rfl rfl (fun hh => absurd hh (by decide))
 
 /-! ### the callback part of a disk job -/
 
@@ -229,7 +235,7 @@ theorem core_cbStep (s : St) (id : Nat) (hb : Base s) (hc : Core s) : Core (cbSt
             exact hc1.content k d0 tok h0 hw0
       cases hkind : j.kind <;> cases r <;> simp only
       · -- page-out failed: purge by key
-        have h2 := core_purge { s with jobs := eraseJob s.jobs id } j.key hb.nd hc1 (fun _ _ _ => hnone)
+        have h2 := core_purgeFailed { s with jobs := eraseJob s.jobs id } j.key hb.nd hc1 hnone
         exact core_frame _ _ h2 rfl rfl rfl rfl rfl rfl
       · -- page-out succeeded: on disk, space returned
         have hst : d.status = .pagingOut := by simpa [hkind, jobStatus] using hstat
@@ -244,7 +250,7 @@ theorem core_cbStep (s : St) (id : Nat) (hb : Base s) (hc : Core s) : Core (cbSt
             exact (this j hj rfl).1 hio
         exact core_frame _ _ h2 rfl rfl rfl rfl rfl rfl
       · -- page-in failed: purge by key
-        exact core_purge { s with jobs := eraseJob s.jobs id } j.key hb.nd hc1 (fun _ _ _ => hnone)
+        exact core_purgeFailed { s with jobs := eraseJob s.jobs id } j.key hb.nd hc1 hnone
       · -- page-in succeeded: in memory
         have hst : d.status = .pagedIn := by simpa [hkind, jobStatus] using hstat
         refine settle .inMemory 0 _ (hsame _) rfl rfl rfl rfl rfl ?_ ?_ ?_
